@@ -346,6 +346,31 @@ func TestC13(t *testing.T) {
 		}
 		ev.Case("C13", desc, (len(sig) >= 2 || symNonLeading || anyShadow) && mutation != "none", "mutation-"+mutation, fmt.Sprintf("inputs-%d", len(sig)), fmt.Sprintf("expect-error-%v", wantErr))
 
+		// the verdict on this set must not depend on what the Model was asked before: an earlier
+		// accepted Run with other sizes along the free axes, or an earlier refused Run
+		switch rapid.IntRange(0, 7).Draw(rt, "history") {
+		case 0, 1:
+			prior := gonnx.Tensors{}
+			for _, in := range sig {
+				if in.shadowed && rapid.Bool().Draw(rt, "priorOmitsShadowed") {
+					continue
+				}
+				ps := conformingShape(rt, in)
+				prior[in.name] = mkT(ps, backingOf(tensor.Float32, prod(ps), func(j int) float64 { return float64(j%5) - 2 }))
+			}
+			pr := runModel(m, prior)
+			ev.Class("C13", "after-an-accepted-run")
+			if pr.panicked || pr.err != nil {
+				rt.Fatalf("C13 violated by %v: a conforming input set (before the set under test) was rejected: %v %v", sig, pr.err, pr.panicVal)
+			}
+		case 2:
+			pr := runModel(m, gonnx.Tensors{"unrelated": mkT([]int{2}, []float32{1, 2})})
+			ev.Class("C13", "after-a-refused-run")
+			if pr.panicked {
+				rt.Fatalf("C13 violated by %v: Run without the declared inputs panics: %v", sig, pr.panicVal)
+			}
+		}
+
 		rr := runModel(m, feed)
 		if rr.panicked {
 			rt.Fatalf("C13 violated by %s: Run panics: %v", desc, rr.panicVal)
